@@ -53,7 +53,9 @@ class World:
         "flat run of elements in memory order, anything else is refused with ValueError",
     ]
     rule = ("run = N in 1..17 simulated ranks x 1..6 phases (range/list/array with or without index, reduce/allreduce/none, "
-            "collect, library rate-matrix loop, library Redfield tensor) under a seeded schedule with slow ranks and start skew; "
+            "collect, accumulator layouts C/F/transposed/strided/1-D, helper calls and nested or refused library calls inside the "
+            "caller's loop, library rate-matrix loop (also with noise below rtol), library Redfield tensors incl. the time-dependent "
+            "subclass) under a seeded schedule with slow ranks and start skew; "
             "non-trivial = N>=2 and >=1 phase in which distribution is active; distinct = distinct event-log digests "
             "(blocks + results + schedule) among non-trivial runs")
 
